@@ -89,6 +89,10 @@ def parsePrimary : Nat → List Tok → PS → PR RTerm
         | .ok (items, .bar :: .var v :: .rbrack :: rest, st) =>
             let (tv, st) := mkVar v st
             .ok (items.foldr (fun h t => .lpair h t) tv, rest, st)
+        -- `[ term ',' <empty termlist> '|' VARIABLE ]`: the grammar's termlist may be empty
+        | .ok ([item], .comma :: .bar :: .var v :: .rbrack :: rest, st) =>
+            let (tv, st) := mkVar v st
+            .ok (.lpair item tv, rest, st)
         | .ok _ => .error .syntax
         | .error e => .error e
     | _ => .error .syntax
@@ -108,6 +112,7 @@ def parseTermList : Nat → List Tok → PS → PR (List RTerm)
   | 0, _, _ => .error .fuel
   | f+1, toks, st =>
     match parseTerm f toks st with
+    | .ok (t, .comma :: .bar :: rest, st) => .ok ([t], .comma :: .bar :: rest, st)
     | .ok (t, .comma :: rest, st) =>
         match parseTermList f rest st with
         | .ok (ts, rest, st) => .ok (t :: ts, rest, st)
@@ -331,6 +336,39 @@ def parseProgram : Nat → List Tok → PS → List SClause → Bool → Except 
       | .ok ((c, na'), rest, st) =>
           parseProgram f rest st (match c with | some c => c :: acc | none => acc) (na || na')
       | .error e => .error e
+
+/-- Syntax only: one `clauseordirective`, ignoring what the visitor thinks of it. -/
+def parseClauseSyn (f : Nat) (toks : List Tok) : Except FrontErr (List Tok) :=
+  match toks with
+  | .neck :: rest =>
+      match parseGoal f rest {} with
+      | .ok (_, .dot :: rest, _) => .ok rest
+      | .ok _ => .error .syntax
+      | .error e => .error e
+  | _ =>
+      match parseGoal f toks {} with
+      | .ok (_, .dot :: rest, _) => .ok rest
+      | .ok (_, .neck :: rest, _) =>
+          match parseBody f 0 rest {} with
+          | .ok (_, .dot :: rest, _) => .ok rest
+          | .ok _ => .error .syntax
+          | .error e => .error e
+      | .ok _ => .error .syntax
+      | .error e => .error e
+
+def recogniseToks : Nat → List Tok → Bool
+  | 0, _ => false
+  | _+1, [] => true
+  | f+1, toks =>
+      match parseClauseSyn (4 * toks.length + 16) toks with
+      | .ok rest => recogniseToks f rest
+      | .error _ => false
+
+/-- Is the text a sentence of the grammar (lexer + parser, no visitor)? -/
+def recognise (s : String) : Bool :=
+  match lex s with
+  | none => false
+  | some toks => recogniseToks (toks.length + 1) toks
 
 /-- Lexer + parser + visitor. The Boolean says that some clause head has a non-ASCII name. -/
 def frontend (s : String) : Except FrontErr (List SClause × Bool) :=
